@@ -10,17 +10,18 @@
 package main
 
 import (
-	"strconv"
-	"regexp"
-	"github.com/ogen-go/ogen/gen/ir"
 	"encoding/json"
 	"fmt"
+	"github.com/ogen-go/ogen/gen/ir"
 	"net/url"
+	"os"
 	"path"
 	"reflect"
+	"regexp"
 	"runtime"
 	"runtime/debug"
 	"sort"
+	"strconv"
 	"strings"
 	"sync"
 	"time"
@@ -202,30 +203,46 @@ func run(d doc, withGen bool) (res result) {
 		return
 	}
 	// the dereferenced spec ogen can emit parses back to an equivalent API
+	var a1dump string
+	{
+		a1 := *api
+		a1.Components = nil
+		var sb1 strings.Builder
+		dump(reflect.ValueOf(&a1), &sb1, map[uintptr]int{}, 0)
+		a1dump = sb1.String() // taken before anything else gets to see the parsed API
+	}
+	equivalent := func(eb []byte, what string) (string, string) {
+		es, err := ogen.Parse(eb)
+		if err != nil {
+			return what + " does not parse: " + err.Error(), ""
+		}
+		api2, err := parser.Parse(es, parser.Settings{})
+		if err != nil {
+			return what + " is rejected: " + trunc(err.Error(), 300), ""
+		}
+		// the expanded spec regroups components (it keeps the referenced ones as local components),
+		// so the Components listing itself is not compared: operations, webhooks, servers, info are
+		a2 := *api2
+		a2.Components = nil
+		var sb2 strings.Builder
+		dump(reflect.ValueOf(&a2), &sb2, map[uintptr]int{}, 0)
+		if a1dump != sb2.String() {
+			cause := ""
+			if stripExamples(a1dump) == stripExamples(sb2.String()) {
+				cause = "examples-dropped"
+			} else if strings.ReplaceAll(a1dump, "XOgenCustomSecurity:true", "XOgenCustomSecurity:false") == sb2.String() {
+				cause = "custom-security-extension-dropped"
+			}
+			return "API of " + what + " differs: " + firstDiff(a1dump, sb2.String()), cause
+		}
+		return "", ""
+	}
 	if exp, err := parser.Expand(api); err != nil {
 		res.Expand = "Expand failed: " + err.Error()
 	} else if eb, err := yaml.Marshal(exp); err != nil {
 		res.Expand = "marshal of expanded spec failed: " + err.Error()
-	} else if es, err := ogen.Parse(eb); err != nil {
-		res.Expand = "expanded spec does not parse: " + err.Error()
-	} else if api2, err := parser.Parse(es, parser.Settings{}); err != nil {
-		res.Expand = "expanded spec is rejected: " + trunc(err.Error(), 300)
 	} else {
-		// the expanded spec regroups components (it keeps the referenced ones as local components),
-		// so the Components listing itself is not compared: operations, webhooks, servers, info are
-		a1, a2 := *api, *api2
-		a1.Components, a2.Components = nil, nil
-		var sb1, sb2 strings.Builder
-		dump(reflect.ValueOf(&a1), &sb1, map[uintptr]int{}, 0)
-		dump(reflect.ValueOf(&a2), &sb2, map[uintptr]int{}, 0)
-		if sb1.String() != sb2.String() {
-			res.Expand = "API of the expanded spec differs: " + firstDiff(sb1.String(), sb2.String())
-			if stripExamples(sb1.String()) == stripExamples(sb2.String()) {
-				res.ExpandCause = "examples-dropped"
-			} else if strings.ReplaceAll(sb1.String(), "XOgenCustomSecurity:true", "XOgenCustomSecurity:false") == sb2.String() {
-				res.ExpandCause = "custom-security-extension-dropped"
-			}
-		}
+		res.Expand, res.ExpandCause = equivalent(eb, "the expanded spec")
 	}
 	if !withGen {
 		return
@@ -237,10 +254,28 @@ func run(d doc, withGen bool) (res result) {
 		opts.Parser.RootURL = &url.URL{Scheme: "file", Path: "/" + d.Root}
 		opts.Parser.Remote = remote(d)
 	}
+	// the same for the expanded spec as the generator writes it (option `expand`): building the IR
+	// works on the parsed API too, and what it rewrites there must not reach the file
+	expFile := ""
+	if !multi {
+		if f, err := os.CreateTemp("", "c07-expanded-*.yml"); err == nil {
+			expFile = f.Name()
+			f.Close()
+			defer os.Remove(expFile)
+			opts.ExpandSpec = expFile
+		}
+	}
 	g, err := gen.NewGenerator(s2, opts)
 	if err != nil {
 		res.GenErr = trunc(err.Error(), 400)
 		return
+	}
+	if expFile != "" && res.Expand == "" {
+		if eb, err := os.ReadFile(expFile); err != nil || len(eb) == 0 {
+			res.Expand = "the generator did not write the expanded spec it was asked for"
+		} else {
+			res.Expand, res.ExpandCause = equivalent(eb, "the expanded spec written by the generator")
+		}
 	}
 	if err := g.WriteSource(genfs.CheckFS{}, "api"); err != nil {
 		res.GenErr = "write: " + trunc(err.Error(), 400)
@@ -722,6 +757,13 @@ func bases() []baseDoc {
 	add("parameters with defaults, enums and formats through references",
 		base(M{"/a": M{"get": op("a", M{"parameters": []any{R("#/components/parameters/P"), M{"name": "n", "in": "query", "schema": M{"type": "integer", "default": 5}}, M{"name": "e", "in": "header", "schema": R("#/components/schemas/E")}}})}},
 			M{"parameters": M{"P": M{"name": "p", "in": "query", "schema": M{"type": "string", "default": "d", "enum": []any{"d", "e"}}}}, "schemas": M{"E": M{"type": "string", "format": "uuid"}}}, "3.0.3"))
+	add("constructs the IR build rewrites on the parsed API (masked media types, webhook path parameters)",
+		M{"openapi": "3.1.0", "info": M{"title": "t", "version": "1"},
+			"paths":    M{"/a": M{"post": op("a", M{"requestBody": R("#/components/requestBodies/B"), "responses": M{"200": R("#/components/responses/R")}})}, "/b": M{"put": op("b", M{"requestBody": R("#/components/requestBodies/B"), "responses": M{"200": R("#/components/responses/R")}})}},
+			"webhooks": M{"evt": M{"parameters": []any{M{"name": "id", "in": "path", "required": true, "schema": strS}}, "post": M{"operationId": "hook", "parameters": []any{M{"name": "q", "in": "query", "schema": strS}}, "requestBody": jb(objS), "responses": M{"200": M{"description": "ok"}}}}},
+			"components": M{
+				"requestBodies": M{"B": M{"required": true, "content": M{"application/json": M{"schema": objS}, "application/*": M{"schema": M{"type": "string", "format": "binary"}}, "text/plain": M{"schema": strS}, "text/*": M{"schema": M{"type": "string", "format": "binary"}}}}},
+				"responses":     M{"R": M{"description": "r", "content": M{"application/json": M{"schema": objS}, "application/*": M{"schema": M{"type": "string", "format": "binary"}}, "*/*": M{"schema": M{"type": "string", "format": "binary"}}}}}}})
 	add("everything at once",
 		base(M{
 			"/a/{id}": M{"parameters": []any{R("#/components/parameters/ID")}, "post": op("a", M{"parameters": []any{R("#/components/parameters/P")}, "requestBody": R("#/components/requestBodies/B"), "responses": M{"200": R("#/components/responses/R"), "default": R("#/components/responses/D")}})},
@@ -1179,7 +1221,7 @@ func main() {
 		case c.Want == "error:infinite recursion" && !strings.Contains(errText, ".json:") && !strings.Contains(errText, "at "):
 			attrs["class"] = "infinite-recursion-error-without-position/" + c.Name
 			k.Detail = trunc(errText, 400)
-				case outcome == "error" && len(c.Doc.Files) > 1:
+		case outcome == "error" && len(c.Doc.Files) > 1:
 			// located: every file:line:column of the diagnostic lies in that file, on a reference
 			// (files are served as compact JSON: line 1, column = byte offset + 1)
 			if bad := misplaced(c.Doc, errText); bad != "" {
